@@ -195,11 +195,14 @@ func (p *Program) canon(fn *Func, x ast.Expr, depth int) string {
 				return "recv"
 			}
 			if isParamOf(fn, o) {
-				return "param:" + paramOwner(fn, o) + o.Name()
+				return "param:" + paramOwner(fn, o) // positional: "#i", or "lit@pos.#i" for a literal's own parameter
 			}
 			if ds, ok := fn.Defs().singleDef(o); ok {
 				switch ds.kind {
 				case "zero":
+					if fn.isDecodeTarget(o) {
+						return "var:req" // the variable the message is decoded into, whatever it is called
+					}
 					return "var:" + o.Name()
 				case "assign":
 					s := p.canon(fn, ds.rhs, depth+1)
@@ -355,23 +358,51 @@ func isParamOf(fn *Func, o *types.Var) bool {
 	return false
 }
 
-// paramOwner distinguishes parameters of nested literals from those of the declared function.
+// paramOwner renders a parameter by position (names are free to change): "#i" for the declared
+// function's parameters, "lit@pos.#i" for those of a nested literal.
 func paramOwner(fn *Func, o *types.Var) string {
 	for f := fn; f != nil; f = f.Outer {
 		if f.Type != nil && f.Type.Params != nil {
+			i := 0
 			for _, fld := range f.Type.Params.List {
+				if len(fld.Names) == 0 {
+					i++
+					continue
+				}
 				for _, nm := range fld.Names {
 					if f.Info().Defs[nm] == o {
 						if f.Lit != nil {
-							return fmt.Sprintf("lit@%d.", f.Lit.Pos())
+							return fmt.Sprintf("lit@%d.#%d", f.Lit.Pos(), i)
 						}
-						return ""
+						return fmt.Sprintf("#%d", i)
 					}
+					i++
 				}
 			}
 		}
 	}
-	return ""
+	return "?"
+}
+
+// paramIndex returns the position of a parameter variable in fn's own signature (-1 if absent).
+func paramIndex(fn *Func, o types.Object) int {
+	if fn.Type == nil || fn.Type.Params == nil {
+		return -1
+	}
+	i := 0
+	for _, fld := range fn.Type.Params.List {
+		if len(fld.Names) == 0 {
+			i++
+			continue
+		}
+		for _, nm := range fld.Names {
+			if fn.Info().Defs[nm] == o {
+				return i
+			}
+			i++
+		}
+	}
+	return -1
 }
 
 // getterField: f is a method whose whole body is `return recv.field` (repo code), or a generated
@@ -507,4 +538,34 @@ func litTypeName(info *types.Info, lit *ast.CompositeLit) (string, string) {
 		return n.Obj().Pkg().Name(), n.Obj().Name()
 	}
 	return "", ""
+}
+
+// isDecodeTarget: the variable's address is handed to hwebsocket.Msg.DataTo in this function.
+func (f *Func) isDecodeTarget(o types.Object) bool {
+	r := f.root()
+	if r.decodeTargets == nil {
+		r.decodeTargets = map[types.Object]bool{}
+		info := r.Info()
+		if r.Body != nil {
+			ast.Inspect(r.Body, func(n ast.Node) bool {
+				call, ok := n.(*ast.CallExpr)
+				if !ok || len(call.Args) != 1 {
+					return true
+				}
+				fobj, _ := calleeObj(info, call).(*types.Func)
+				if fobj == nil || fobj.Name() != "DataTo" || fobj.Pkg() == nil || fobj.Pkg().Path() != pkgHCWS {
+					return true
+				}
+				if u, ok := ast.Unparen(call.Args[0]).(*ast.UnaryExpr); ok {
+					if id, ok := ast.Unparen(u.X).(*ast.Ident); ok {
+						if obj := info.Uses[id]; obj != nil {
+							r.decodeTargets[obj] = true
+						}
+					}
+				}
+				return true
+			})
+		}
+	}
+	return r.decodeTargets[o]
 }
